@@ -7,6 +7,40 @@ use wow_srp::{tbc_header, vanilla_header, wrath_header};
 pub trait AddObj: Clone + PartialEq + Send {
     fn enc(&mut self, d: &mut [u8]);
     fn dec(&mut self, d: &mut [u8]);
+    /// header-sized chunks may go through the typed helpers (wire layout: size big-endian, opcode little-endian)
+    fn enc_typed(&mut self, d: &mut [u8]);
+    fn dec_typed(&mut self, d: &mut [u8]);
+}
+
+macro_rules! typed_impl {
+    () => {
+        fn enc_typed(&mut self, d: &mut [u8]) {
+            if d.len() == 4 {
+                let o = self.encrypt_server_header(u16::from_be_bytes([d[0], d[1]]), u16::from_le_bytes([d[2], d[3]]));
+                d.copy_from_slice(&o);
+            } else if d.len() == 6 {
+                let o = self.encrypt_client_header(u16::from_be_bytes([d[0], d[1]]), u32::from_le_bytes([d[2], d[3], d[4], d[5]]));
+                d.copy_from_slice(&o);
+            } else {
+                self.encrypt(d)
+            }
+        }
+        fn dec_typed(&mut self, d: &mut [u8]) {
+            if d.len() == 4 {
+                let h = self.decrypt_server_header([d[0], d[1], d[2], d[3]]);
+                let s = h.size.to_be_bytes();
+                let o = h.opcode.to_le_bytes();
+                d.copy_from_slice(&[s[0], s[1], o[0], o[1]]);
+            } else if d.len() == 6 {
+                let h = self.decrypt_client_header([d[0], d[1], d[2], d[3], d[4], d[5]]);
+                let s = h.size.to_be_bytes();
+                let o = h.opcode.to_le_bytes();
+                d.copy_from_slice(&[s[0], s[1], o[0], o[1], o[2], o[3]]);
+            } else {
+                self.decrypt(d)
+            }
+        }
+    };
 }
 impl AddObj for vanilla_header::HeaderCrypto {
     fn enc(&mut self, d: &mut [u8]) {
@@ -15,6 +49,7 @@ impl AddObj for vanilla_header::HeaderCrypto {
     fn dec(&mut self, d: &mut [u8]) {
         self.decrypt(d)
     }
+    typed_impl!();
 }
 impl AddObj for tbc_header::HeaderCrypto {
     fn enc(&mut self, d: &mut [u8]) {
@@ -23,6 +58,7 @@ impl AddObj for tbc_header::HeaderCrypto {
     fn dec(&mut self, d: &mut [u8]) {
         self.decrypt(d)
     }
+    typed_impl!();
 }
 
 pub struct AddKind<O: AddObj> {
@@ -131,7 +167,19 @@ fn add_stream<O: AddObj>(
     model_enc.enc(&mut want);
     let mut wire = plain.to_vec();
     let replay = format!("stream {} {} {}", hex(k), pseed, plain.len());
-    let r = guard(|| chunked(&mut rs, &mut wire, |c| sender.enc(c)));
+    // every other header-sized chunk goes through the typed helper instead of the raw call
+    let mut flip = pseed & 1 == 1;
+    let r = guard(|| {
+        chunked(&mut rs, &mut wire, |c| {
+            if c.len() == 4 || c.len() == 6 {
+                flip = !flip;
+                if flip {
+                    return sender.enc_typed(c);
+                }
+            }
+            sender.enc(c)
+        })
+    });
     let (calls, empty) = match r {
         Ok(x) => x,
         Err(e) => {
@@ -151,7 +199,18 @@ fn add_stream<O: AddObj>(
         return false;
     }
     let mut back = wire.clone();
-    let r = guard(|| chunked(&mut rr, &mut back, |c| receiver.dec(c)));
+    let mut flip2 = pseed & 2 == 2;
+    let r = guard(|| {
+        chunked(&mut rr, &mut back, |c| {
+            if c.len() == 4 || c.len() == 6 {
+                flip2 = !flip2;
+                if flip2 {
+                    return receiver.dec_typed(c);
+                }
+            }
+            receiver.dec(c)
+        })
+    });
     match r {
         Ok((calls, empty)) => {
             rep.count("decrypt_calls", calls);
